@@ -143,13 +143,45 @@ def NamedInOrder (ls : List Bytes) (es : List (Bytes × Bytes)) : List (Bytes ×
   | f :: fs, p :: ps => recipLine (namedRecipient ls es f.1) <+: p ∧ NamedInOrder ls es fs ps
   | _, _ => False
 
-/-! ### the double-bounce address, from the control-file bytes (qmail-send(8), qmail-control(5)) -/
+/-! ### control files as documented (qmail-control(5)): one entry per line, trailing spaces and tabs
+ignored, empty lines and `#` comments ignored; virtualdomains entries are `key:prepend`, split at the
+first colon, lines without a colon are not entries.  Written independently of `Nq.Bounce.readfile` /
+`cmEntries`; the driver computes the oracle's tables with these from the raw control-file bytes. -/
+
+def linesOf (s : Bytes) : List Bytes :=
+  s.foldr (fun c acc => if c = LF then [] :: acc else
+    match acc with
+    | l :: r => (c :: l) :: r
+    | [] => [[c]]) [[]]
 
 /-- trailing spaces and tabs removed -/
 def rstripBlank (l : Bytes) : Bytes := (l.reverse.dropWhile (fun c => c == SP || c == TAB)).reverse
 
+def specControlLines (f : Bytes) : List Bytes :=
+  ((linesOf f).map rstripBlank).filter (fun l => match l with | [] => false | c :: _ => c != 35)
+
+def specVdomEntry (l : Bytes) : Option (Bytes × Bytes) :=
+  match l.dropWhile (· != 58) with
+  | _ :: v => some (l.takeWhile (· != 58), v)
+  | [] => none
+
+/-- control/virtualdomains (`none` = no such file) -/
+def specVdoms (f : Option Bytes) : List (Bytes × Bytes) :=
+  match f with
+  | some b => (specControlLines b).filterMap specVdomEntry
+  | none => []
+
 /-- qmail-control(5): a one-line control file is its first line, trailing spaces and tabs removed -/
 def specFirstLine (f : Bytes) : Bytes := rstripBlank (f.takeWhile (· != LF))
+
+/-- control/locals, default control/me (qmail-send(8)) -/
+def specLocals (locals me : Option Bytes) : List Bytes :=
+  match locals, me with
+  | some f, _ => specControlLines f
+  | none, some m => [specFirstLine m]
+  | none, none => []
+
+/-! ### the double-bounce address, from the control-file bytes (qmail-send(8), qmail-control(5)) -/
 
 /-- qmail-send(8): double bounces go to `doublebounceto@doublebouncehost`; default `postmaster` for
 the former (control/me is NOT consulted), control/me and then the literal `doublebouncehost` for the
